@@ -2,8 +2,8 @@
    Proved: the resolution mechanism (what a reference to a name returns, from which scope, what is stored, what is
    never looked at). That memoisation is invisible in the verdicts of whole programs is carried by the abstraction
    differential on the implementation (DESIGN.md, C15). *)
-From GV.Model Require Import SEval.
-From GV.Proofs Require Import VarProps.
+From GV.Model Require Import SEval PEval.
+From GV.Proofs Require Import VarProps MemoProps.
 
 (* `let v = <literal>`: a reference resolves to exactly that literal, in every state, and leaves the state alone ... *)
 Theorem C15_literal_variable_resolves : forall r is_root root lets memo name v s,
@@ -65,3 +65,39 @@ Theorem C15_parameter_resolves_to_argument : forall r bindings call msg rest sts
   = Done (vals, [], mkState (FParams bindings call msg :: rest) sts).
 Proof. exact parameter_resolves_to_argument. Qed.
 Print Assumptions C15_parameter_resolves_to_argument.
+
+(* ---- memoisation is invisible (capture-free programs) ----
+   PEval is the evaluator with both caches switched off: a variable is re-derived from its definition at every reference,
+   a named rule is re-evaluated at every reference. *)
+
+(* the verdict of a file is the verdict of the memo-free evaluation: `%v` means its definition *)
+Theorem C15_verdict_is_memo_free : forall re conv prog n doc st recs s',
+  nc_prog prog = true ->
+  eval_file re conv prog n doc = Done (st, recs, s') ->
+  Ev (fun k => exists recs', eval_file' re conv prog k doc = Done (st, recs', init_state prog doc)).
+Proof. exact eval_file_memo_free. Qed.
+Print Assumptions C15_verdict_is_memo_free.
+
+(* every reference to a variable sees the same value, whatever was memoised before and whatever the fuel *)
+Theorem C15_every_reference_sees_the_same_value : forall re conv prog, nc_prog prog = true ->
+  forall name n1 n2 s1 s2 v1 v2 recs1 recs2 s1' s2',
+  Valid prog (evalP re conv prog) s1 -> Valid prog (evalP re conv prog) s2 -> erase s1 = erase s2 ->
+  ev_resolve (evalN re conv prog n1) name s1 = Done (v1, recs1, s1') ->
+  ev_resolve (evalN re conv prog n2) name s2 = Done (v2, recs2, s2') -> v1 = v2.
+Proof. exact variable_value_is_stable. Qed.
+Print Assumptions C15_every_reference_sees_the_same_value.
+
+(* evaluating a clause keeps the caches valid, hands the scope stack back, and gives the memo-free status *)
+Theorem C15_caches_stay_valid : forall re conv prog, nc_prog prog = true ->
+  forall n g s st recs s', nc_clause g = true -> Valid prog (evalP re conv prog) s ->
+  ev_clause (evalN re conv prog n) g s = Done (st, recs, s') ->
+  Valid prog (evalP re conv prog) s' /\ erase s' = erase s /\
+  Ev (fun k => exists recs', ev_clause (evalP re conv prog k) g (erase s) = Done (st, recs', erase s)).
+Proof. exact clause_memo_free. Qed.
+Print Assumptions C15_caches_stay_valid.
+
+(* the simulation itself, for every entry point of the interpreter and every fuel *)
+Theorem C15_seval_is_simulated_by_peval : forall re conv prog, nc_prog prog = true ->
+  forall n, ev_sim prog (evalP re conv prog) (evalN re conv prog n).
+Proof. exact evalN_sim. Qed.
+Print Assumptions C15_seval_is_simulated_by_peval.
